@@ -551,8 +551,10 @@ func (b *blob) cacheChunkData(chunk region, r io.Reader, fr fetcher, allData map
 	defer cw.Close()
 
 	w := io.Writer(cw)
-	if _, ok := fetched[chunk]; ok {
-		w = io.MultiWriter(w, allData[chunk])
+	if dst, ok := allData[chunk]; ok && dst != nil {
+		// This chunk was requested by the caller. NOTE: "fetched" can't be used for this
+		// check because it also records the chunks the server sent without being asked for.
+		w = io.MultiWriter(w, dst)
 	}
 
 	if _, err := io.CopyN(w, r, chunk.size()); err != nil {
